@@ -12,6 +12,7 @@ from vmon.core import outcome
 from vmon.util import N, P, rand_secret
 
 PROPERTY_ID = "C03"
+REPO_TEST_MODULES = ["test_pecc", "test_ecc", "test_schnorr"]  # thorough tier: run as an extra workload under the contracts
 RULE = (
     "cases = (curve, P, Q) additions, (k, P) scalar multiplications, field-axiom instances on F_p, and byte strings "
     "given to the key parsers; every Point.__add__/__rmul__ call (also the ones inside double-and-add) is compared "
